@@ -158,7 +158,12 @@ impl Socket for UdpSocketImpl {
             Some(r) => Some(r.map_err(|k| k.context("scripted refusal"))?),
             None => None,
         };
-        let socket = net::UdpSocket::bind("0.0.0.0:0").map_err(|e| SocketBind.context(e))?;
+        // bind in the address family of the remote address
+        let local_address = match address {
+            SocketAddr::V4(_) => "0.0.0.0:0",
+            SocketAddr::V6(_) => "[::]:0",
+        };
+        let socket = net::UdpSocket::bind(local_address).map_err(|e| SocketBind.context(e))?;
 
         let socket = Self {
             socket,
